@@ -506,12 +506,32 @@ def optional_upstream_item(flavour: str) -> dict:
 
 
 def run_optional_upstream(flavour: str) -> dict:
-    """Replay the witness on the real director.  Returns {"reproduced": bool, "report": ...}."""
-    rep = run_case(optional_upstream_item(flavour))
+    """Replay the witness on the real director.  Returns {"reproduced": bool, "report": ..., "too_wide": [...]}.
+    too_wide: the classifier that routes a failure to the signature of D38 must reject every neighbouring
+    circumstance; it is evaluated on the real graphs of the witness with one fact changed at a time."""
+    rep = run_case(dict(optional_upstream_item(flavour), keep_graphs=True))
     hit = [f for f in rep["failures"] if f["signature"] == OPTIONAL_UPSTREAM_SIGNATURE
            and f.get("unjustified") == ["tu"] and f.get("needed_by") == {"tu": ["tx"]}]
     other = [f for f in rep["failures"] if f not in hit]
-    return {"reproduced": bool(hit), "other": other, "report": rep}
+    too_wide = []
+    if hit and rep.get("cone_graphs"):
+        pre, post = (graph_relations(g) for g in rep["cone_graphs"])
+        exe = hit[0]["executed"]
+        tx = dict(post["tx"], detached=False)
+        variants = {
+            "the-optional-step-was-built-before": ({**pre, "tu": dict(pre["tu"], state="SUCCEEDED")}, post, exe),
+            "the-step-is-not-optional": ({**pre, "tu": dict(pre["tu"], need="DEFAULT")}, post, exe),
+            "the-step-was-detached-before": ({**pre, "tu": dict(pre["tu"], detached=True)}, post, exe),
+            "the-consumer-consumed-it-before": ({**pre, "tx": tx}, post, exe),
+            "the-consumer-is-not-executed": (pre, post, [l for l in exe if l != "tx"]),
+            "the-consumer-reads-another-file": (pre, {**post, "tx": dict(post["tx"], inputs={"other.txt"})}, exe),
+        }
+        for name, (a, b, e) in variants.items():
+            if optional_upstream_shape("tu", e, a, b):
+                too_wide.append(name)
+        if optional_upstream_shape("tu", exe, pre, post) != ["tx"]:
+            too_wide.append("the-witness-itself-is-not-recognised")
+    return {"reproduced": bool(hit), "other": other, "report": rep, "too_wide": too_wide}
 
 
 # ---------------------------------------------------------------------------------------------
@@ -741,6 +761,8 @@ def gen_absorbed(rng: random.Random) -> tuple[e3.Project, list, list, str, dict 
             {"op": "step", "label": "gab {m}", "inp": ["{m}"], "out": ["gqo_{stem}.out"]}]})
         for k in ("1", "2", "7"):
             absorber(f"gab gq_{k}.txt", f"gq_{k}.txt", f"gqo_gq_{k}.out", f"constant glob output {k}\n")
+        for k in ("1", "2"):
+            msteps.append((f"gab gq_{k}.txt", [f"gq_{k}.txt"], [], [f"gqo_gq_{k}.out"], True))
         step("tgc", ["gqo_gq_1.out"], ["tgc.out"], tracked())
     env = {"VA": "va0"}
     if rng.random() < 0.25:
@@ -770,30 +792,39 @@ def gen_absorbed(rng: random.Random) -> tuple[e3.Project, list, list, str, dict 
         edited.append(ENV_PREFIX + "VA")
     project = e3.Project(dict(sources), {"scripts": scripts, "commands": commands}, env)
     engine = None
-    if variant == "chain" and "amend" not in feats and "glob" not in feats:
-        engine = {"steps": msteps, "sources": dict(sources), "env": dict(env),
+    if "amend" not in feats:
+        # the plan after the edit: a new match of the pattern adds its absorber (declared by the rerun owner)
+        after = list(msteps)
+        if any(e["op"] == "write" and e["path"] == "gq_7.txt" for e in edits):
+            k = next(i for i, s in enumerate(after) if s[0] == "tgc")
+            after.insert(k, ("gab gq_7.txt", ["gq_7.txt"], [], ["gqo_gq_7.out"], True))
+        engine = {"steps": msteps, "steps_after": after, "sources": dict(sources), "env": dict(env),
                   "edits": [e for e in edits if e["op"] in ("write", "setenv")]}
     return project, edits, edited, "+".join([variant] + feats), engine
 
 
 def engine_term(engine: dict, flavour: str, first_ran: list, cone_log: dict) -> str:
-    """The Gallina term `check_cone_hist (absorb_run consts) proj empty_sys [phase0; phase1]` (model/NoopExec.v):
-    the engine model run on the same two worlds must execute exactly the steps the real director executed, check
-    and skip only steps the director checked and skipped, and change exactly the outputs that changed."""
+    """The Gallina term `check_cone_dyn (absorb_run consts) [] empty_sys [(P, phase0); (P', phase1)]`
+    (model/NoopExec.v): the engine model run on the same two worlds with the same two plans must execute exactly the
+    steps the real director executed, check and skip only steps the director checked and skipped, and change
+    exactly the outputs that changed."""
     from . import common
-    pid, eid, cid = {}, {}, {}
+    pid, eid, cid, labels = {}, {}, {}, {}
 
     def num(d, k, base):
         return d.setdefault(k, base + len(d))
-    labels = {}
-    steps = []
-    for label, inp, env, out, const in engine["steps"]:
-        labels[label] = 1000 + len(labels)
-        steps.append(f"mkStep {labels[label]} {common.coq_list([str(num(pid, p, 1)) for p in inp])} "
-                     f"{common.coq_list([str(num(eid, n, 1)) for n in env])} "
-                     f"{common.coq_list([str(num(pid, p, 1)) for p in out])}")
-    consts = [str(labels[s[0]]) for s in engine["steps"] if s[4]]
-    outs = sorted(p for s in engine["steps"] for p in s[3])
+
+    def project(steps):
+        out = []
+        for label, inp, env, outs_, _const in steps:
+            num(labels, label, 1000)
+            out.append(f"mkStep {labels[label]} {common.coq_list([str(num(pid, p, 1)) for p in inp])} "
+                       f"{common.coq_list([str(num(eid, n, 1)) for n in env])} "
+                       f"{common.coq_list([str(num(pid, p, 1)) for p in outs_])}")
+        return common.coq_list(out)
+    before, after = engine["steps"], engine.get("steps_after", engine["steps"])
+    p0, p1 = project(before), project(after)
+    consts = sorted({str(labels[s[0]]) for s in before + after if s[4]})
 
     def world(sources, env):
         src = [f"({num(pid, p, 1)}, {num(cid, 'file:' + c, 1)})" for p, c in sorted(sources.items()) if p in pid]
@@ -817,12 +848,13 @@ def engine_term(engine: dict, flavour: str, first_ran: list, cone_log: dict) -> 
 
     def ids(ls):
         return common.coq_list([str(labels[l]) for l in sorted(set(ls)) if l in labels])
-    chg0 = common.coq_list([f"({pid[p]}, true)" for p in outs])
-    chg1 = common.coq_list([f"({pid[p]}, {common.coq_bool(p in cone_log['changed'])})" for p in outs])
-    ph0 = f"({s0}, {e0}, {ids(first_ran)}, [], {chg0})"
-    ph1 = f"({s1}, {e1}, {ids(cone_log['ran'])}, {ids(cone_log['skipped'])}, {chg1})"
-    return (f"let proj := {common.coq_list(steps)} in wf proj && "
-            f"check_cone_hist (absorb_run {common.coq_list(consts)}) proj empty_sys [{ph0}; {ph1}]")
+    outs0 = sorted(p for s in before for p in s[3])
+    outs1 = sorted(p for s in after for p in s[3])
+    chg0 = common.coq_list([f"({pid[p]}, true)" for p in outs0])
+    chg1 = common.coq_list([f"({pid[p]}, {common.coq_bool(p in cone_log['changed'])})" for p in outs1])
+    ph0 = f"({p0}, ({s0}, {e0}, {ids(first_ran)}, [], {chg0}))"
+    ph1 = f"({p1}, ({s1}, {e1}, {ids(cone_log['ran'])}, {ids(cone_log['skipped'])}, {chg1}))"
+    return f"check_cone_dyn (absorb_run {common.coq_list(consts)}) [] empty_sys [{ph0}; {ph1}]"
 
 
 def run_absorbed(item: dict) -> dict:
@@ -976,6 +1008,8 @@ def _cone_check(item, rng, proj, ref, rebuild, flavour, report, count, fail, roo
                 count(f"cone:{what}:plan_step")
             if i["creator"] not in (None, "./plan.py"):
                 count(f"cone:{what}:step_of_nested_plan")
+    if item.get("keep_graphs"):
+        report["cone_graphs"] = [ref.graph, new.graph]
     report["cone_log"] = {"ran": sorted(set(executed)), "skipped": skipped,
                           "changed": sorted(p for p in set(ref.files) | set(new.files)
                                             if ref.files.get(p) != new.files.get(p))}
